@@ -94,6 +94,22 @@ _KANI_CONV = [
 _KANI_STATUS = {'package': 'vk-status', 'harness': 'status_try_from_total_and_domain', 'bounded': False,
                 'bound': 'loop-free, full u64 domain (complete)', 'tier': 'quick', 'decode': 'raw', 'timeout': 900}
 
+UNITS['c08'] = {
+    'template': 'contracts/c08.vrs',
+    'mutants': [
+        ('close_pops_nothing', 'self.0.pop();', '', ['C08.env.close']),
+        ('open_pushes_nothing', 'self.0.push(Scope::new());', '', ['C08.env.open']),
+        ('lookup_reads_outermost_scope', 'let __x9_1_0 = &self.0[__k9_1];', 'let __x9_1_0 = &self.0[0];', ['C08.env.lookup']),
+        ('use_ignores_qualifier', 'let entry = Entry::new(var.ident(), qualifier);', 'let entry = Entry::new(var.ident(), None);', ['C08.resolve.use_']),
+        ('duplicate_not_reported', 'if env.declare(entry, defn).is_some() {', 'if env.declare(entry, defn).is_some() && false {', ['C08.resolve.duplicate_declaration_is_error']),
+        ('recursion_scope_not_closed', 'close_recursion(env)?;', '', ['C08.resolve.']),
+        ('declaration_scope_not_closed', 'defg.close(); env.close();', 'defg.close();', ['C08.resolve.close_pops_one_scope']),
+        ('rec_binder_into_enclosing_scope', 'env.open(); let binding = rec.binding();', 'let binding = rec.binding();', ['C08.resolve.recursion_opens_binder_scope', 'C08.resolve.open_recursion']),
+        ('import_ignores_qualifier', 'let entry = Entry::new(decl.ident(), import.qualifier());', 'let entry = Entry::new(decl.ident(), None);', ['C08.resolve.import_declares_under_qualifier', 'C08.resolve.declare_import']),
+        ('variables_resolved_before_binders_open', 'if let Some(decl) = Declaration::cast(node) { open_declaration(env, &mut defg, decl)?; } else if', 'if', ['C08.resolve.']),
+    ],
+}
+
 UNITS['c10'] = {
     'template': 'contracts/c10.vrs',
     'mutants': [
@@ -201,6 +217,36 @@ PROPS = {
                        'name collisions between untagged() names, evaluator invariant that every Ref has a table entry.',
         'assumptions': ['evaluator invariant refs_closed / uri_refs_known', 'variable names inside a path pairwise distinct (property hypothesis)', 'literals and names are brace-free (lexer patterns)'],
         'not_decided': ['operationIds are unique', 'the YAML text parses back to the same document', 'every Ref(name) in the evaluated spec has an entry in spec.refs', 'collisions between untagged() component names'],
+    },
+    'C08': {
+        'units': ['c08'],
+        'level': 'other',
+        'obligation_prefixes': ['C08.'],
+        'scans': [
+            {'name': 'P8.stdlib_import', 'kind': 'pinned_text', 'file': 'oal-compiler/src/stdlib.rs', 'path': [('fn', 'import')],
+             'why': 'stdlib::import is under an ASSUMED contract (declares the built-ins, unqualified, into the innermost scope); Verus rejects its array-of-Rc<dyn> body'},
+            {'name': 'P8.core_define', 'kind': 'pinned_text', 'file': 'oal-compiler/src/tree.rs', 'path': [('impl', 'impl Core'), ('fn', 'define')],
+             'why': 'rule R-ghost models `core_mut().define(d)` as "the definition slot of the node becomes d"'},
+        ],
+        'technique': 'Verus contracts on the real scope stack (env.rs) and on the real resolver walk (resolve.rs): every use is set to the innermost open binder of its name, for all syntax trees',
+        'level_text': 'Deductive proof (Verus/Z3), for every module set and every syntax tree, of the STATIC half of the property on the real code: '
+                      '(1) Env::{new,declare,lookup,open,close} against an abstract stack of maps (lookup is innermost-first; declare touches only the innermost scope and reports a previous definition; open/close push/pop one scope); '
+                      '(2) define_variable, declare_import, declare_variable, open/close_declaration, open/close_recursion each against that view; '
+                      '(3) the whole body of resolve(): whenever it returns Ok, no module declaration reuses an unqualified name in scope, every use has a binder, and the sequence of definition-slot writes equals '
+                      'the one of a lexical resolver: at each Variable node, the innermost-first lookup of (identifier, qualifier) in [built-ins < imports under their qualifier < all declarations of the module] followed by the scopes of the '
+                      'declarations/rec expressions that are open (started, not yet ended) at that point of the walk. '
+                      'The DYNAMIC half (the evaluator\'s scope stack agrees with these static bindings for all call shapes) is a whole-evaluation invariant and is not decided: level other.',
+        'level_note': 'ASSUMED: stdlib::import declares the built-ins into the innermost scope (pinned text); generational_indextree `traverse` yields the Start/End events of the subtree (uninterpreted sequence; '
+                      'that Start/End are well bracketed is NOT needed for the proof, only for reading "open" as "enclosing"); the derived Hash/Eq of Entry obey vstd\'s key model; Ident equality is text equality; '
+                      'External::new(node) identifies the node by (locator, index). Rule R-ghost (stated in DESIGN.md): the RefCell write Core.define is a push on a ghost log threaded as an erased parameter. '
+                      'Rule R9: the iterator chain of Env::lookup is compiled to an index loop. Observed and recorded, not a violation of a stated clause: a module declaration that reuses the name of an unqualified import or of a built-in is rejected '
+                      '("identifier already exists") instead of shadowing it.',
+        'design_ref': 'DESIGN.md section 12.8',
+        'explanation': 'The property was first listed not applicable; rule R9 (iterator pipeline -> loop), rule R10/R-ghost (ghost parameter for interior-mutability writes) and a ghost syntax-tree shim brought env.rs and all of resolve.rs within Verus\' reach. '
+                       'The resolver half is proved for all programs; the evaluator half stays out of reach and is named under not_decided.',
+        'assumptions': ['stdlib::import contract (pinned text)', 'traverse() event sequence is the walk of the tree (trusted dependency)', 'loader hands resolve a module set containing every joinable import (C10)', 'Entry key model', 'parser node accessors as an opaque tree with ghost structure'],
+        'not_decided': ['the evaluator\'s dynamic scope stack (Context::lookup_binding, eval_application, eval_recursion) agrees with the static binding for all call shapes', 'that the value of an identifier is the one bound at its binder (second sentence of the statement)',
+                        'which of two same-named declarations from two unqualified imports wins is fixed (the later import) but not demanded by the statement'],
     },
     'C10': {
         'units': ['c10'],
@@ -374,7 +420,6 @@ NOT_APPLICABLE = {
     'C02': 'needs an independent reference semantics of the whole language and a relational proof over evaluator + emitter (25 mutually recursive eval_* over an external arena, Rc, serde_yaml); no function contract within reach decides "nothing dropped or re-attached" for programs',
     'C05': 'hyperproperty relating the outputs of two programs (before/after a rewrite); a contract speaks about one call, and a product encoding would need the whole pipeline inside the verifier',
     'C06': 'byte-identical output is functional determinism of the whole path source -> YAML including serde_yaml and HashMap iteration order; a data-flow discipline, not a contract on a function',
-    'C08': 'lexical binding is a relation between every use and every binder established by resolve\'s walk over generational_indextree with RefCell writes and honoured by the evaluator\'s dynamic stack; Verus rejects the iterator/closure code and Kani does not finish on HashMap<Rc<str>,..> scopes',
     'C09': 'invariant of the evaluator\'s refs table across eval_declaration/eval_recursion/eval_application (the latter uses closures capturing &mut, rejected by Verus); cycles_check alone would give termination of the check, not the property',
     'C12': 'every parser production is a closure combinator over &mut Context (rejected by Verus: closures capturing a mutable reference); Kani on parse_program with three symbolic tokens did not finish in 30 min; the linear bound needs ghost accounting through that same code',
     'C13': 'exit status, stderr and "target file untouched" are effects of a process over the file system reached through &self unit structs; agreement of three front ends is relational',
